@@ -1,1 +1,52 @@
-fn main(){}
+//! tcs-harness: drives the REAL taskchampion-sync-server code (path dependencies on /repo) and
+//! writes one protocol line per operation with the implementation's answer.
+mod ctx;
+mod exec;
+mod gen;
+mod scen;
+mod util;
+
+use std::collections::HashMap;
+
+pub struct Args {
+    pub cmd: String,
+    pub kv: HashMap<String, String>,
+}
+impl Args {
+    pub fn get(&self, k: &str, d: &str) -> String {
+        self.kv.get(k).cloned().unwrap_or_else(|| d.to_string())
+    }
+    pub fn num(&self, k: &str, d: u64) -> u64 {
+        self.kv.get(k).and_then(|s| s.parse().ok()).unwrap_or(d)
+    }
+}
+
+fn main() {
+    let mut a = std::env::args().skip(1);
+    let cmd = a.next().unwrap_or_else(|| "help".into());
+    let mut kv = HashMap::new();
+    let rest: Vec<String> = a.collect();
+    let mut i = 0;
+    while i < rest.len() {
+        if let Some(k) = rest[i].strip_prefix("--") {
+            let v = rest.get(i + 1).cloned().unwrap_or_default();
+            kv.insert(k.to_string(), v);
+            i += 2;
+        } else {
+            i += 1;
+        }
+    }
+    let args = Args { cmd: cmd.clone(), kv };
+    // quiet panics: they are caught and reported as observations
+    if std::env::var("VERIF_PANIC_TRACE").is_err() {
+        std::panic::set_hook(Box::new(|_| {}));
+    }
+    let code = match cmd.as_str() {
+        "hist" => scen::hist::main(&args),
+        _ => {
+            eprintln!("usage: tcs-harness <hist|…> --out FILE [--seed N] …");
+            2
+        }
+    };
+    std::process::exit(code);
+}
